@@ -36,8 +36,10 @@ SEMANTIC = [
     'failed this',
     'value may be out of range',
     'possible truncation',
+    'unable to prove post-condition of closure',
+    'fails to satisfy `callee.requires(args)`',
 ]
-SAFETY = ['possible arithmetic underflow/overflow', 'possible division by zero', 'precondition not satisfied',
+SAFETY = ['possible arithmetic underflow/overflow', 'possible division by zero', 'precondition not satisfied', 'fails to satisfy `callee.requires(args)`',
           'possible bit shift', 'value may be out of range', 'possible truncation']
 
 
@@ -247,10 +249,11 @@ def main():
     violations, known_hits, ignored = [], [], []
     for r in results:
         for f in r['failures']:
-            if only and not f.get('safety'):
+            pref = bool(clause_filter) and any(p in f['clause'] for p in clause_filter)
+            if only and not (f.get('safety') or pref):
                 ignored.append(f['obligation'])
                 continue
-            if clause_filter and not f['clause'].startswith('body:') and not any(f['clause'].startswith(p) for p in clause_filter):
+            if not only and clause_filter and not f['clause'].startswith('body:') and not pref:
                 ignored.append(f['obligation'])
                 continue
             if f['obligation'] in known_for:
@@ -274,9 +277,9 @@ def main():
                 fns.append({'unit': r['unit'], 'fn': fn['fn'], 'src': '%s:%d-%d' % (fn['file'], fn['src_lines'][0], fn['src_lines'][1]),
                             'arm': fn['arm'], 'rewrites': fn['rules']})
             for c in r['named_clauses']:
-                if only:
+                if clause_filter and not any(p in c['clause'] for p in clause_filter):
                     continue
-                if clause_filter and not any(c['clause'].startswith(p) for p in clause_filter):
+                if only and not clause_filter:
                     continue
                 ob = '%s::%s::%s' % (r['unit'], c['fn'], c['clause'])
                 if ob in known_for:
